@@ -29,11 +29,40 @@ def jitter(frames):
             g["pos"] = [g["pos"][0] + (j + 1) / 4096, g["pos"][1], g["pos"][2]]
 
 
+AXIS4 = [(1.0, 0.0), (0.0, 1.0), (-1.0, 0.0), (0.0, -1.0)]
+
+
+def int_scene(rng, K):
+    """a scene whose MAP-frame positions are integers (handed over as Python ints) while the ego pose has a fractional translation and an
+    axis-aligned yaw, so that the ego-relative coordinates are fractional: exercises position arguments that are not floats"""
+    frames = []
+    for i in range(K):
+        c, s = rng.choice(AXIS4)
+        t = [rng.randint(-80, 80) + rng.choice([0.5, 0.25, 0.375]), rng.randint(-80, 80) + rng.choice([0.5, 0.625, 0.875]), 0.5]
+        gts, ests = [], []
+
+        def ego_of(n):   # R^T (n - t), exact on the dyadic lattice
+            dx, dy = n[0] - t[0], n[1] - t[1]
+            return [c * dx + s * dy, -s * dx + c * dy, n[2] - t[2]]
+        for j in range(rng.randint(1, 3)):
+            ex, ey = -24 + 24 * j + rng.randint(-3, 3), rng.choice([-25, -9, 8, 27]) + rng.randint(-2, 2)
+            n = [round(c * ex - s * ey + t[0]), round(s * ex + c * ey + t[1]), 1]
+            lab = rng.choice(MC.TARGETS)
+            size = [rng.randint(8, 24) / 8, rng.randint(16, 40) / 8, 1.5]
+            gts.append({"label": lab, "pos": ego_of(n), "map_int": n, "size": size, "yaw_cs": rng.choice(AXIS4), "uuid": f"g{j}", "points": 10})
+            if rng.random() < 0.85:
+                d = rng.choice([(0, 0), (1, 0), (0, 1), (3, 0), (0, -2)])
+                ne = [n[0] + d[0], n[1] + d[1], 1]
+                ests.append({"label": lab, "pos": ego_of(ne), "map_int": ne, "size": list(size), "yaw_cs": gts[-1]["yaw_cs"], "conf": None, "uuid": f"t{j}"})
+        frames.append({"index": i, "t": 1000000 + 100000 * i, "gts": gts, "ests": ests, "ego": {"t": t, "cs": (c, s)}})
+    return frames
+
+
 def run_scene(case, frame):
     mgr = MC.make_manager(case["task"], frame, tag="c07" + frame, **CFG)
     out = []
     for fr in case["frames"]:
-        gt = MC.make_gt_frame(fr, frame)
+        gt = MC.make_gt_frame(fr, frame, tf_mode=case.get("ego_tf", "pose"))
         ests = MC.make_estimates(fr, frame)
         r = mgr.add_frame_result(fr["t"], gt, ests, MC.critical_cfg(mgr, CRIT[case["crit"]]), MC.passfail_cfg(mgr, PF[case["pf"]]))
         out.append((r, gt))
@@ -136,9 +165,16 @@ class RenderingCorr(Corr):
                     if rng.random() < 0.4 and len(frames[i]["ests"]) >= 2:  # an identity swap
                         a, b = frames[i]["ests"][0], frames[i]["ests"][1]
                         a["uuid"], b["uuid"] = b["uuid"], a["uuid"]
-            MC.assign_confidences(frames, rng, distinct=True)
-            jitter(frames)
-            out.append({"task": task, "frames": frames, "crit": rng.randrange(len(CRIT)), "pf": rng.randrange(len(PF))})
+            if ci % 8 == 5:
+                frames = int_scene(rng, K)
+                MC.assign_confidences(frames, rng, distinct=True)
+            else:
+                MC.assign_confidences(frames, rng, distinct=True)
+                jitter(frames)
+            # how the EGO-frame rendering carries its transforms: the pose (as the loader does), an empty list, or nothing at all
+            ego_tf = ["pose", "pose", "empty", "none"][ci % 4]
+            out.append({"task": task, "frames": frames, "crit": rng.randrange(len(CRIT)), "pf": rng.randrange(len(PF)), "ego_tf": ego_tf,
+                        "int_positions": ci % 8 == 5})
         return out
 
     def run_impl(self, case):
@@ -211,11 +247,14 @@ class RenderingCorr(Corr):
                              "scene_map_first": obs["scene_map"]["maps"][:1]}}
 
     def distribution(self, cases, obs):
-        d = {"tasks": {}, "frames": 0, "pairs": 0, "tp": 0, "fp": 0, "fn": 0, "filtered_out_gt": 0, "id_switches_seen": 0}
+        d = {"tasks": {}, "frames": 0, "pairs": 0, "tp": 0, "fp": 0, "fn": 0, "filtered_out_gt": 0, "id_switches_seen": 0,
+             "ego_rendering_transforms": {"pose": 0, "empty": 0, "none": 0}, "scenes_with_int_typed_map_positions": 0}
         for c, o in zip(cases, obs):
             if not isinstance(o, dict) or "ego" not in o:
                 continue
             d["tasks"][c["task"]] = d["tasks"].get(c["task"], 0) + 1
+            d["ego_rendering_transforms"][c.get("ego_tf", "pose")] += 1
+            d["scenes_with_int_typed_map_positions"] += bool(c.get("int_positions"))
             for fr, f in zip(c["frames"], o["ego"]):
                 d["frames"] += 1
                 d["pairs"] += len(f["pairs"])
@@ -235,20 +274,19 @@ class C07(Prop):
     technique = "Rocq proof (rigid-motion invariance of every per-object / per-pair fact the pipeline reads, composed from the C06/C09/C18 proofs, plus ==-extensionality of filter, matcher, TP decision, AP and the CLEAR accumulation); in-Coq correspondence on two renderings of the same scenes"
     level_text = ("Theorems (Props/C07.v, closed under the global context) for ANY ego pose (unit quaternion for positions; yaw+translation for boxes): the "
                   "ego-relative coordinates recovered through the inverse transform are the ego-frame coordinates; centre distance, plane distance (as the "
-                  "code computes it in the map frame), height intersection and the heading weight are equal in both renderings; IoU is, given invariance of "
-                  "the intersection area; the range-filter predicate, the two-stage matcher, the TP decision and AP/APH depend on those numbers only up to "
+                  "code computes it in the map frame), height intersection and the heading weight are equal in both renderings; IoU is (for the exact intersection evaluator unconditionally, for any other area function given its invariance); the range-filter predicate, the two-stage matcher, the TP decision and AP/APH depend on those numbers only up to "
                   "==, and so do the CLEAR counters, MOTA and MOTP for every history; so all discrete outcomes coincide and all scores are equal. Tie: the same generated scenes (detection and tracking, random ego pose) "
                   "are evaluated by the real manager in the ego frame and in the map frame; the exact geometry of both renderings is evaluated in Coq and "
                   "compared with what the implementation computed in each frame, and the two executions are compared with each other on every outcome.")
     level_note = ("Exact arithmetic over Q vs binary64: agreement within 1e-7 relative (plane distance is rounded to 1e-10 by the code). Scenes are on the "
                   "k/8 lattice with bounds and thresholds off the lattice and unique dyadic jitter, so no decision is within tolerance of its boundary "
-                  "(the property's precondition). IoU invariance is conditional on shapely's intersection area (C06 trusted base). CLEAR invariance is the theorem "
+                  "(the property's precondition). IoU invariance is proved for the exact evaluator of the intersection area (C07_iou_invariant_exact_evaluator, from C06's clipper proofs), with which shapely is compared on every run. CLEAR invariance is the theorem "
                   "C07_clear_invariant about the C05 model (identical counters, equal MOTA/MOTP for histories whose per-pair scores are equal as numbers) and is "
                   "additionally observed on the two executions.")
     rule = ("32 (quick) / 400 (thorough) scenes of 1-4 frames, 0-7 GT per frame, random rational ego pose (13 yaws x lattice translations), 4 critical filters x 3 "
-            "pass/fail thresholds, detection and tracking (persistent tracks with identity swaps); non-trivial = at least two object results")
-    assumptions = ["decisions at least 1e-5 away from their boundaries by construction of the generator", "shapely intersection area invariant under rigid motion"]
-    not_proved = ["IoU invariance unconditionally (needs the exact polygon intersection: C06)",                   "roll/pitch in the ego pose for box-level facts (positions only)"]
+            "pass/fail thresholds, detection and tracking (persistent tracks with identity swaps); the ego-frame rendering carries the pose / an empty transform list / no transforms in turn; every 8th scene has integer-typed map-frame positions with a fractional ego pose; non-trivial = at least two object results")
+    assumptions = ["decisions at least 1e-5 away from their boundaries by construction of the generator", "shapely's intersection area agrees with the exact evaluator within 1e-9 (C06's correspondence)"]
+    not_proved = [                  "roll/pitch in the ego pose for box-level facts (positions only)"]
 
     def correspondences(self):
         return [RenderingCorr()]
